@@ -104,6 +104,35 @@ ASSUME RangeMonotone ==
             /\ (amax < 24 => Rank(RangeVerdict(amin, amax + 1, lo, hi)) >=
                              Rank(RangeVerdict(amin, amax, lo, hi)))
 
+(* a parameter limited by two ranges (correlated: base and sigma grid) is   *)
+(* never treated more leniently than by either range alone                 *)
+G == 0..8
+ASSUME RangeIntersectionNarrower ==
+    \A a1 \in G, a2 \in G, b1 \in G, b2 \in G, lo \in G, hi \in G :
+        (a1 <= a2 /\ b1 <= b2 /\ lo <= hi) =>
+            LET i == Intersect(<<a1, a2>>, <<b1, b2>>)
+            IN /\ Rank(RangeVerdict(i[1], i[2], lo, hi)) <=
+                  Rank(RangeVerdict(a1, a2, lo, hi))
+               /\ Rank(RangeVerdict(i[1], i[2], lo, hi)) <=
+                  Rank(RangeVerdict(b1, b2, lo, hi))
+               /\ (Covers(a1, a2, lo, hi) /\ Covers(b1, b2, lo, hi)) =>
+                     RangeVerdict(i[1], i[2], lo, hi) = "MustAccept"
+
+(* chains: unknown over vector, correlated over unknown over vector *)
+ASSUME FreqRangeExamples ==
+    LET tab == [h \in 1..5 |->
+                  CASE h = 1 -> [kind |-> "vec", k |-> <<100, 150, 200>>]
+                    [] h = 2 -> [kind |-> "scalar"]
+                    [] h = 3 -> [kind |-> "unk", base |-> 1]
+                    [] h = 4 -> [kind |-> "corr", base |-> 3, sk |-> <<120, 300>>]
+                    [] h = 5 -> [kind |-> "corr", base |-> 2, sk |-> <<>>]]
+    IN /\ FreqRange(tab, 1) = <<100, 200>>
+       /\ FreqRange(tab, 3) = <<100, 200>>
+       /\ FreqRange(tab, 4) = <<120, 200>>
+       /\ FreqRange(tab, 5) = <<0, FInf>>
+       /\ RangeVerdict(120, 200, 100, 200) = "MustRefuse"
+       /\ RangeVerdict(0, FInf, 100, 200) = "MustAccept"
+
 (* the documented numbers: a one percent shortfall is left open, a five    *)
 (* percent shortfall at either end must be refused                         *)
 ASSUME RangeExamples ==
